@@ -507,7 +507,8 @@ func (vc *VC) verifyFunc(fi *FuncInfo) (res *FuncResult) {
 		}
 		return nil
 	}()...) {
-		for p, t := range v.L {
+		for _, p := range sortedKeys(v.L) {
+			t := v.L[p]
 			if t.Sort == sortRef && (p == "" || strings.HasSuffix(p, ".ref")) {
 				st.assume(mkCmp("le", t, st.alloc0))
 			}
@@ -518,13 +519,15 @@ func (vc *VC) verifyFunc(fi *FuncInfo) (res *FuncResult) {
 			gt := vc.ghostType(fi, g)
 			gv := namedValue("ghost|"+g.Name, gt)
 			st.assumeValid(gv)
-			for p, t := range gv.L {
+			for _, p := range sortedKeys(gv.L) {
+				t := gv.L[p]
 				if t.Sort == sortRef && (p == "" || strings.HasSuffix(p, ".ref")) {
 					st.assume(mkCmp("le", t, st.alloc0))
 					st.assume(mkCmp("lt", mkInt(sortRef, 0), t))
 					// ghost state is separate from every real argument
 					for _, a := range args {
-						for ap, at := range a.L {
+						for _, ap := range sortedKeys(a.L) {
+							at := a.L[ap]
 							if at.Sort == sortRef && (ap == "" || strings.HasSuffix(ap, ".ref")) {
 								st.assume(mkNot(mkEq(t, at)))
 							}
